@@ -87,7 +87,7 @@ Proof.
   intros I. destruct o as [t e|t|t|t|t|l v|k v|d]; cbn [fstep].
   - destruct (pend (th s t)); [exact I|]. destruct (tvalid (th s t) && passes_logger s e); [|exact I].
     eapply cnt_fsame; [|exact I]. repeat split. intro u. cbn. unfold upd. destruct (Nat.eqb_spec u t) as [->|]; reflexivity.
-  - destruct (memb t (registered s)) eqn:M; [exact I|].
+  - destruct (memb t (registered s)) eqn:M; [exact I|]. cbn [orb]. destruct (negb (tvalid (th s t))); [exact I|].
     assert (Hn : ~ In t (registered s)) by (intro H; apply memb_in in H; congruence).
     destruct I as [N0 Z S]. constructor; cbn.
     + apply NoDup_app_remove_l with (l := []) || idtac.
@@ -332,7 +332,7 @@ Proof.
   intros L H. specialize (L H).
   destruct o as [t e|t|t|t|t|l v|k v|d]; cbn [fstep]; auto.
   - destruct (pend (th s t)); [exact L|]. destruct (tvalid (th s t) && passes_logger s e); exact L.
-  - destruct (memb t (registered s)); exact L.
+  - destruct (memb t (registered s) || negb (tvalid (th s t))); exact L.
   - destruct (pend (th s t)) as [e0|]; [|exact L]. destruct (negb (memb t (registered s))); [exact L|].
     cbv zeta. destruct (prepare_write ideal (c_cap K) (q (th s t)) (esz (retime K s e0))) as [q1 [off|]]; [exact L|].
     destruct (match ekind (retime K s e0) with KLog => negb (counted (th s t)) | _ => false end);
